@@ -42,14 +42,15 @@ def execute(case):
                 for how in ("tuple", "object"):
                     if how == "object" and (c["tr"] or c["modes"]):
                         continue                                 # (core, factors) is not a TuckerTensor under these options
-                    runs["%s_%s" % (be, how)] = lf.run_tucker_options(inp, how, c["skip"], c["tr"], c["modes"])
+                    runs["%s_%s" % (be, how)] = lf.run_tucker_options(inp, how, c["skip"], c["tr"], c["modes"], callform=c.get("callform", "plain"))
                 continue
             # container form of the parts: lists or tuples all the way down, alternating with the backend and the event
             form = ("list", "tuple")[(case["k"] + (be == "einsum")) % 2]
             for how in ("tuple", "object"):
-                runs["%s_%s" % (be, how)] = lf.run_views(op, inp, how, form=form)
-                if c["bad"] == "none" and be == "core":     # the same conversions in sequence on ONE tuple / ONE object
-                    runs["%s_%s_seq" % (be, how)] = lf.run_views(op, inp, how, shared=True)
+                runs["%s_%s" % (be, how)] = lf.run_views(op, inp, how, form=form, callform=c.get("callform", "plain"))
+                # the same conversions in sequence on ONE tuple / ONE object (every PARAFAC2 event, every other event otherwise)
+                if c["bad"] == "none" and be == "core" and (op == "p2" or case["k"] % 2 == 0):
+                    runs["%s_%s_seq" % (be, how)] = lf.run_views(op, inp, how, shared=True, callform=c.get("callform", "plain"))
             if c["bad"] != "none":          # invalid family: the conversion functions on the raw tuple, too
                 runs["%s_convert" % be] = lf.run_convert(op, inp)
     finally:
